@@ -589,9 +589,12 @@ def _adds_borrowed_counter(pr, tb, bb, s):
     # find the AddWithOverflow feeding this store
     src = s["rv"].get("use", {})
     p = src.get("move") or src.get("copy")
-    if not p:
-        return False
-    for d in tb.d.defs.get(p["l"], []):
+    cands = []
+    if "binop" in s["rv"] and s["rv"]["binop"].startswith("Add"):
+        cands.append(("assign", None, None, s["rv"]))   # unchecked form (overflow checks off): *count = Add(*count, c)
+    elif p:
+        cands = tb.d.defs.get(p["l"], [])
+    for d in cands:
         if d[0] == "assign" and "binop" in d[3] and d[3]["binop"].startswith("Add"):
             for k in ("a", "b"):
                 for l in operand_locals(d[3][k]):
